@@ -43,6 +43,7 @@ def handleMeta (c : J) : Res := Id.run do
     r := tag r ("meta-" ++ typ)
     if out.started then r := tag r "started"
     if out.stopped then r := tag r "stopped"
+    if e.getBool "inflight" then r := tag r "stopped-mid-sync"
     -- model vs implementation
     let implRunning := ((e.getD "running").fields.map (fun kv => (kv.1, kv.2.strD ""))).toArray.qsort (fun a b => a.1 < b.1) |>.toList
     let modelRunning := (st.running.map (fun (n, sp) => (n, s!"sync-{n}-{sp.ver}"))).toArray.qsort (fun a b => a.1 < b.1) |>.toList
